@@ -512,6 +512,11 @@ Definition create_copied_sub_element_inner (self other : id) (pos m version : N)
    do anc <- ancestor_is (fuel_of w) (n_parent n) other;
    if anc then wfail ForbiddenCopyOfParent else
    do c <- deep_copy (fuel_of w) other version;
+   (* fix f5f3361: a copy of an identifiable type without SHORT-NAME is refused (the allocated copy stays as garbage) *)
+   do cn0 <- get_node c;
+   do nv <- wl (is_named_in_version T (n_type cn0) version);
+   do id0 <- is_identifiable cn0;
+   if nv && negb id0 then wfail ItemNameRequired else
    do path <- path_unchecked n;
    modify_node c (fun x => set_parent x (PElem self));;
    do cn <- get_node c;
@@ -574,9 +579,10 @@ Definition detach_from (parent c : id) : W unit :=
    end)%W.
 
 (* ElementRaw::move_element_position *)
-Definition move_element_position (self mv : id) (pos : N) : W id :=
+Definition move_element_position (self mv : id) (pos e : N) : W id :=
   (do n <- get_node self;
-   if pos <? N.of_nat (List.length (n_content n)) then
+   (* fix 4d404e9: the bound is the end of the insertion range (the moved element occupies one position of it) *)
+   if pos <? e then
      match index_of (citem_is mv) (n_content n) with
      | Some cur => set_node self (set_content n (insert_at (remove_at (n_content n) cur) (N.to_nat pos) (CElem mv)));;
                    wret mv
@@ -813,7 +819,7 @@ Definition e_move_element_here_at (h mv pos : N) : W id :=
        do sp <- parent_of mn;
        match sp with
        | None => wfail InvalidSubElement
-       | Some p => if p =? h then move_element_position h mv pos else move_element_local h mv pos m v
+       | Some p => if p =? h then move_element_position h mv pos e else move_element_local h mv pos m v
        end
      else move_element_full h mv pos m m_src v
    else wfail InvalidPosition)%W.
